@@ -5,6 +5,7 @@ import (
 	"fmt"
 	"os"
 	"path/filepath"
+	"strconv"
 	"strings"
 	"time"
 )
@@ -392,6 +393,27 @@ func checkC20(c *Ctx) {
 		c.Case("hugewidth:"+string(hjobs[i].Prog), true)
 	})
 
+	// widths within the limit are accepted in every spelling (zero flag, minus, both)
+	var ajobs []Job
+	for _, w := range []string{"010000", "065536", "065535", "-012345", "-065536", "0100", "09999", "00000000000000000000100", "-0000065536"} {
+		for _, a := range []string{`"ab"`, `1.5`} {
+			conv := "s"
+			if a == "1.5" {
+				conv = "f"
+			}
+			ajobs = append(ajobs, Job{Kind: "run", Prog: []byte("BEGIN {\n  print \"start\"\n  printf(\"%" + w + conv + "\", " + a + ")\n}\n"), Budget: 1000, Tag: w})
+		}
+	}
+	pool.Map(ajobs, func(i int, r Result) {
+		w, _ := strconv.Atoi(strings.TrimLeft(strings.TrimPrefix(ajobs[i].Tag, "-"), "0"))
+		if r.Class != "ok" || len(r.Stdout) != len("start\n")+w {
+			c.Violation("width-in-limit-"+r.Class, map[string]any{"program": string(ajobs[i].Prog), "got_class": r.Class, "got_err": r.ErrMsg, "got_len": len(r.Stdout), "expected_len": len("start\n") + w,
+				"why": "a width of at most 65536 is not refused, however it is spelled; the output is padded to exactly that width"})
+			return
+		}
+		c.Case("widthok:"+string(ajobs[i].Prog), true)
+	})
+
 	// ---- JSON nesting (library and binary)
 	jdepths := []int{100, 1000, 5000, 9999, 10000, 10001, 20000, 100000}
 	var jjobs []Job
@@ -403,6 +425,11 @@ func checkC20(c *Ctx) {
 		for _, doc := range docs {
 			jjobs = append(jjobs, Job{Kind: "run", Prog: []byte("BEGIN { print \"start\" }\n{ n = n + 1 }\nEND { print \"values\", n }\n"), Files: []FileIn{{Name: "deep.json", Data: []byte(doc)}}, Budget: 1000000, N: d})
 		}
+		// a document that is accepted is also printed and converted whole (the array form prints as it is written)
+		if d <= 10000 {
+			jjobs = append(jjobs, Job{Kind: "run", Prog: []byte("BEGIN { print \"start\" }\nBEGINFILE { print $\n  s = json($)\n  print s.length() > 0 }\n{ n = n + 1 }\nEND { print \"values\", n }\n"),
+				Files: []FileIn{{Name: "deep.json", Data: []byte(docs[0])}}, Budget: 1000000, N: d, Tag: "print"})
+		}
 	}
 	pool.Map(jjobs, func(i int, r Result) {
 		d := jjobs[i].N
@@ -412,7 +439,12 @@ func checkC20(c *Ctx) {
 			c.Count("inconclusive", 1)
 			return
 		case "ok":
-			if string(r.Stdout) != "start\nvalues 1\n" {
+			want := "start\nvalues 1\n"
+			if jjobs[i].Tag == "print" {
+				want = "start\n" + string(jjobs[i].Files[0].Data) + "\ntrue\nvalues 1\n"
+			}
+			if string(r.Stdout) != want {
+				rep["got_stdout"] = firstN(string(r.Stdout), 200)
 				c.Violation("json-depth-output", rep)
 				return
 			}
